@@ -31,7 +31,7 @@ def cases(tier, seed):
     # integer values of any magnitude: the result is a float variance, so no intermediate 64-bit integer product or sum may overflow
     # (groups of 0 or >= 2 rows so that every group's variance is defined; small sizes: the mixed integer/real polynomial identities are
     # expensive for the solver - measured 60 s for one 2+2 sequence - and the overflow does not need more than two rows)
-    for Ni, Gi, iseqs in ((2, 1, [[0, 0]]), (3, 1, [[0, 0, -1]])) if tier == "quick" else ((2, 1, [[0, 0]]), (3, 1, [[0, 0, -1], [0, 0, 0]]), (4, 2, [[0, 0, 1, 1]])):
+    for Ni, Gi, iseqs in ((2, 1, [[0, 0]]), (3, 1, [[0, 0, -1]])) if tier == "quick" else ((2, 1, [[0, 0]]), (3, 1, [[0, 0, -1], [0, 0, 0]])):
         for f in ("var", "std"):
             out.append({"kind": "var", "func": f, "ddof": 1, "N": Ni, "G": Gi, "dtype": "int64", "codes_list": [list(c) for c in iseqs],
                         "name": f"GroupBy.{f}(ddof=1) of int64 values of any magnitude/N={Ni},G={Gi}/{len(iseqs)} code sequences"})
